@@ -14,7 +14,7 @@ import (
 
 func init() { Registry["C07"] = runC07 }
 
-const explanationC07 = "Decides structural necessary conditions of C07 on the OpenAPI builders and the server data builder: (R07.1) the server route table, the v2 and the v3 path builders all take their paths from RouteExpr.FullPaths and the verb from RouteExpr.Method; (R07.2) every verb the DSL can produce has a case in the path builders' verb switch wherever the document format has a slot for it; (R07.3) every request location of an endpoint (Params, Headers, Cookies, MapQueryParams, Body, Responses, HTTPErrors, MultipartRequest) that the server data builder reads is read by the v3 and v2 operation builders; (R07.4) inside a walk over a mapped-attribute collection the required flag is asked of the collection being walked and the `in` literal belongs to that collection (path|query from Params, header from Headers, cookie from Cookies), path wildcards are required; (R07.5) the v2/v3 builders and the server agree on the predicate 'has a request body' (Body.Type != Empty); (R07.7) the Swagger base-path decision looks at each route (any absolute route), and set/memo maps are keyed consistently; (R07.8) required flags are propagated under the same key they are looked up with; (R07.9) scope lists stored in security requirements are never nil. NOT decided: validity of the documents against the OpenAPI schemas and JSON≡YAML (marshal behaviour of third-party encoders)."
+const explanationC07 = "Decides structural necessary conditions of C07 on the OpenAPI builders and the server data builder: (R07.1) the server route table, the v2 and the v3 path builders all take their paths from RouteExpr.FullPaths and the verb from RouteExpr.Method; (R07.2) every verb the DSL can produce has a case in the path builders' verb switch wherever the document format has a slot for it; (R07.3) every request location of an endpoint (Params, Headers, Cookies, MapQueryParams, Body, Responses, HTTPErrors, MultipartRequest) that the server data builder reads is read by the v3 and v2 operation builders; (R07.4) inside a walk over a mapped-attribute collection the required flag is asked of the collection being walked and the `in` literal belongs to that collection (path|query from Params, header from Headers, cookie from Cookies), path wildcards are required; (R07.5) the v2/v3 builders and the server agree on the predicate 'has a request body' (Body.Type != Empty); (R07.7) the Swagger base-path decision looks at each route (any absolute route), and set/memo maps are keyed consistently; (R07.8) required flags are propagated under the same key they are looked up with; (R07.9) scope lists stored in security requirements are never nil. (R07.10) every store into the paths table of either document is keyed by the request path with wildcards rewritten to {name} (endpoints and file servers, OpenAPI 2 and 3: four sibling sites); (R07.11) every OpenAPI 3 Parameter literal carries a schema or a content. NOT decided: validity of the documents against the OpenAPI schemas and JSON≡YAML (marshal behaviour of third-party encoders)."
 
 func runC07(c *an.Ctx) string {
 	r071Routes(c)
